@@ -74,6 +74,13 @@ def impl(case):
         else:
             exp = DotExporter(start, **kw)
     lines = []
+    part = case.get("partial", 0)
+    if part:
+        from anytree import PreOrderIter
+        n_nodes = len(list(PreOrderIter(start, filter_=kw.get("filter_"), stop=kw.get("stop"), maxlevel=kw.get("maxlevel"))))
+        it = iter(exp)
+        for _ in range(1 + len(case.get("options") or []) + min(part, n_nodes)):
+            next(it)                   # an abandoned first iteration: header, options, `part` node lines
     for _ in range(case.get("iterations", 1)):
         lines.extend(list(exp))
     if case.get("tofile"):
